@@ -326,13 +326,36 @@ def coq_property_file(pid, timeout=1500, stem=None):
         if rc != 0:
             res["bad"].append("make %s.vo failed%s%s" % (stem, coq_failure_site(out), (" [" + translator_note() + "]") if translator_note() else ""))
             return res
-        # now compile the property file itself again, capturing what it prints
+        # now compile the property file itself again, capturing what it prints (the `Print Assumptions` outputs). The captured text is kept
+        # next to the compiled file and reused as long as make did not have to rebuild that file since (make has just decided, from the
+        # sources and every dependency, that <stem>.vo is current): the second compilation would print the same text again
         args = coqproject_args()
-        rc, out = sh("timeout %d coqc %s %s.v" % (timeout, args, stem), cwd=COQ, timeout=timeout + 30)
-        res["log"] += out
-        if rc != 0:
-            res["bad"].append("coqc %s.v failed%s%s" % (stem, coq_failure_site(out), (" [" + translator_note() + "]") if translator_note() else ""))
-            return res
+        vo = os.path.join(COQ, stem + ".vo")
+        saved = os.path.join(COQ, "." + stem + ".printed")
+        out = None
+        try:
+            if (os.path.exists(saved) and os.path.getmtime(saved) >= os.path.getmtime(vo) >= os.path.getmtime(vfile)
+                    and not os.environ.get("VERIF_NO_PROOF_CACHE")):
+                out = open(saved).read()
+                if "Closed under the global context" not in out and "Axioms:" not in out:
+                    out = None
+        except OSError:
+            out = None
+        if out is None:
+            rc, out = sh("timeout %d coqc %s %s.v" % (timeout, args, stem), cwd=COQ, timeout=timeout + 30)
+            res["log"] += out
+            if rc != 0:
+                res["bad"].append("coqc %s.v failed%s%s" % (stem, coq_failure_site(out), (" [" + translator_note() + "]") if translator_note() else ""))
+                return res
+            try:
+                with open(saved + ".tmp", "w") as f:
+                    f.write(out)
+                os.replace(saved + ".tmp", saved)
+            except OSError:
+                pass
+        else:
+            res["log"] += out
+            res["printed_reused"] = True
     # every Theorem must be followed by Print Assumptions; parse outputs in order
     chunks = re.split(r"(?m)^(?=Closed under the global context|Axioms:)", out)
     chunks = [c for c in chunks if c.startswith("Closed under") or c.startswith("Axioms:")]
@@ -371,6 +394,18 @@ def kernel_crosscheck(name, imports, body, timeout=600):
     if rc != 0:
         return False, out[-1500:]
     return True, ""
+
+
+def capture_printed(stem, timeout=1500):
+    """bin/setup, after the full build: compile one property file once more (nothing else writes the Coq directory then) and keep what
+    it prints for coq_property_file to reuse."""
+    rc, out = sh("timeout %d coqc %s %s.v" % (timeout, coqproject_args(), stem), cwd=COQ, timeout=timeout + 30)
+    if rc == 0:
+        saved = os.path.join(COQ, "." + stem + ".printed")
+        with open(saved + ".tmp", "w") as f:
+            f.write(out)
+        os.replace(saved + ".tmp", saved)
+    return rc
 
 
 def coqproject_args():
@@ -532,9 +567,11 @@ class Run:
             x = coq_property_file(self.pid, stem=st)
             r["theorems"] += x["theorems"]; r["declared"] += x["declared"]; r["bad"] += x["bad"]
             r["log"] += x["log"]; r["ok"] = r["ok"] and x["ok"]
+            if x.get("printed_reused"):
+                self.cov.setdefault("print_assumptions_text_reused_for", []).append(st)
         self.cov["checker_cmd"] = ("cd /verif/coq && coq_makefile -f _CoqProject -o Makefile.coq && " +
                                    " && ".join("make -f Makefile.coq %s.vo && coqc -Q . SqfVerif %s.v" % (st, st) for st in stems) +
-                                   "  (Coq 8.16.1 kernel; Print Assumptions under every theorem)")
+                                   "  (Coq 8.16.1 kernel; Print Assumptions under every theorem; when make finds <file>.vo current, the text its last compilation printed is reused instead of compiling the file a second time)")
         declared = r["declared"]
         done = [n for n, a in r["theorems"]] if r["ok"] else []
         self.cov["obligations"] = max(len(declared), 1)
